@@ -256,6 +256,9 @@ impl Property for C03 {
         }
         v
     }
+    fn fuzz_sequences(&self) -> Vec<(&'static str, usize)> {
+        vec![("/Hist/ops", 50)]
+    }
     fn run(&self, case: &Case03) -> Outcome {
         let mut out = Outcome::default();
         match case {
